@@ -114,7 +114,7 @@ class _ShareM(object):
         self.data = {}
         for k, v in init:
             if k not in self.data:
-                self.data[k] = list(v) if isinstance(v, list) else v
+                self.data[k] = list(v) if isinstance(v, list) else (dict(v) if isinstance(v, dict) else v)
         self.stamp = None if unstamped else 0.0        # created (stamped) at store.stamp 0.0 unless set by an unstamped write
         self.upd_event = -1     # event index of the last stamped write
         self.deck = []
@@ -233,6 +233,12 @@ class Model(object):
             if isinstance(lst, list):
                 lst.append(elem)
                 self.facts.add("streak-element-queued")
+            elif isinstance(lst, dict):
+                # a mapping used as the queue: its elements are the (key, value) items in insertion order
+                self.mapkeys = getattr(self, "mapkeys", 0) + 1
+                lst["e%d" % self.mapkeys] = elem
+                self.facts.add("streak-element-queued")
+                self.facts.add("streak-mapping-queue")
         elif kind == "push":
             _, si, entry = op
             self.shares[si].deck.append(dict(entry))
@@ -331,6 +337,10 @@ class Model(object):
                     for elem in val:
                         lm.records.append("%s\t%s\n" % (_fmt(t), _fmt(elem)))
                     del val[:]
+                elif isinstance(val, dict):
+                    for item in list(val.items()):
+                        lm.records.append("%s\t%s\n" % (_fmt(t), _fmt(item)))
+                    val.clear()
                 else:
                     lm.records.append("%s\t%s\n" % (_fmt(t), _fmt(val)))
             return
@@ -389,9 +399,15 @@ def _apply(op, shares):
         lst = shares[op[1]].get(op[2])
         if isinstance(lst, list):
             lst.append(op[3])
+        elif isinstance(lst, dict):
+            MAPKEYS[0] += 1
+            lst["e%d" % MAPKEYS[0]] = op[3]
     elif kind == "push":
         from ioflo.aid.odicting import odict
         shares[op[1]].push(odict(sorted(op[2].items())))
+
+
+MAPKEYS = [0]      # counter of elements put into a mapping-valued streak queue (reset per case)
 
 
 def _init_share(sh, init, unstamped=False):
@@ -402,7 +418,7 @@ def _init_share(sh, init, unstamped=False):
         if k in seen:
             continue
         seen.add(k)
-        pairs.append((k, list(v) if isinstance(v, list) else v))
+        pairs.append((k, list(v) if isinstance(v, list) else (dict(v) if isinstance(v, dict) else v)))
     if pairs and unstamped:
         sh.change(odict(pairs))      # unstamped write: the share keeps stamp None
     elif pairs:
@@ -417,7 +433,7 @@ def _queues_empty(case, shares, model_logs, fails, k):
             tag, si, f = lm.fields[0]
             if f:
                 val = shares[si].get(f[0])
-                if isinstance(val, list) and len(val):
+                if isinstance(val, (list, dict)) and len(val):
                     fails.append(("streak-queue-not-drained", "tick %d: after the logger run the streak list %r still holds %r"
                                   % (k, f[0], val)))
         if spec["rule"] == "deck":
@@ -433,6 +449,7 @@ def run_direct(case, ctls, root, model_logs):
     rulevals = {"never": g.NEVER, "once": g.ONCE, "always": g.ALWAYS, "update": g.UPDATE, "change": g.CHANGE,
                 "streak": g.STREAK, "deck": g.DECK}
     fails = []
+    MAPKEYS[0] = 0
     housing.House.Clear()
     housing.ClearRegistries()
     house = housing.House(name="vp")
@@ -646,6 +663,7 @@ def check_case(case):
     Returns (failures, nontrivial, classes)."""
     from vp.core import env
     env.quiet_ioflo()
+    MAPKEYS[0] = 0
     model, ctls = run_model(case)
     root = tempfile.mkdtemp(prefix="vpc22", dir=_TMPROOT)
     try:
@@ -720,8 +738,8 @@ def case_strategy(family):
         for rule in rules:
             if rule == "streak":
                 s_idx = len(shares)
-                shares.append({"path": "q.s", "init": [["q", draw(st.lists(elems, max_size=2))], ["r", []], ["k", 0]]})
-                fsel = draw(st.sampled_from([None, ["q"], ["r", "k"], ["r"]]))
+                shares.append({"path": "q.s", "init": [["q", draw(st.lists(elems, max_size=2))], ["r", []], ["k", 0], ["m", {}]]})
+                fsel = draw(st.sampled_from([None, ["q"], ["r", "k"], ["r"], ["m"], ["m"]]))
                 logs.append({"rule": rule, "loggees": [{"tag": "s", "share": s_idx, "fields": fsel}]})
             elif rule == "deck":
                 d_idx = len(shares)
@@ -753,6 +771,7 @@ def case_strategy(family):
             for e in ELEMS:
                 table.append(["app", s_idx, "q", e])
                 table.append(["app", s_idx, "r", e])
+                table.append(["app", s_idx, "m", e])
         if d_idx is not None:
             for entry in DECK_ENTRIES:
                 table.append(["push", d_idx, entry])
